@@ -48,7 +48,9 @@ var assumptions = []string{
 
 const noBest = math.MaxUint64
 
-func root(tag string, r int) hash.Hash { return hash.NewFromBytes([]byte(fmt.Sprintf("c11app %s %d", tag, r))) }
+func root(tag string, r int) hash.Hash {
+	return hash.NewFromBytes([]byte(fmt.Sprintf("c11app %s %d", tag, r)))
+}
 
 func resultOf(r int) chain.ExecutorResult {
 	if r == 0 {
@@ -130,19 +132,19 @@ func (w *world) name(pk signature.PublicKey) string {
 
 // tracker is the harness's picture of the current round.
 type tracker struct {
-	m         *c11model.Model // nil: no committee / suspended
-	round     uint64
-	timer     int64
-	roundTO   int64
-	committee *scheduler.Committee
-	workers   []signature.PublicKey
-	backups   []signature.PublicKey
-	parent    *block.Block
-	startH    int64
-	discH     int64
-	plan      []*act
-	main      signature.PublicKey
-	sent      []cdesc
+	m          *c11model.Model // nil: no committee / suspended
+	round      uint64
+	timer      int64
+	roundTO    int64
+	committee  *scheduler.Committee
+	workers    []signature.PublicKey
+	backups    []signature.PublicKey
+	parent     *block.Block
+	startH     int64
+	discH      int64
+	plan       []*act
+	main       signature.PublicKey
+	sent       []cdesc
 	stragglers int
 }
 
@@ -401,14 +403,15 @@ func (tr *tracker) whyRejected(m *c11model.Model, c *cdesc) string {
 
 type caseStats struct {
 	normal, resolved, failed, timeouts, discEarly, discTimeout, transitions, takeovers int
-	committeeSeen                                                                 bool
-	appRejected                                                                   int
+	committeeSeen                                                                      bool
+	appRejected                                                                        int
 }
 
 // ---------------------------------------------------------------------------------------------------------------
 
 func shapeSpec(t *rapid.T, s *chain.Spec) {
 	s.WithRuntime = true
+	s.VRF = false // (committee elections with the VRF backend need high-quality alphas: not this test's business)
 	s.RtGroup = uint16(rapid.IntRange(1, 3).Draw(t, "c11Group"))
 	s.RtBackup = uint16(rapid.IntRange(1, 3).Draw(t, "c11Backup"))
 	s.RtStragglers = uint16(rapid.IntRange(0, 1).Draw(t, "c11Stragglers"))
@@ -660,11 +663,19 @@ func TestC11App(t *testing.T) {
 
 			b := bg.Block
 			if _, err := sim.E.Propose(b, r, r); err != nil {
+				if !preconditionLost(err.Error()) {
+					// the block cannot be executed (an application failed or panicked, here most likely roothash) (or panicked) while the block was executed: neither "keeps waiting", nor
+					// "starts discrepancy resolution", nor "fails with an empty block"
+					ev.Violation(t, "round-processing-failed", "height %d: the block cannot be executed because the roothash application failed: %v; trace=%v", b.Height, err, tail(sim.Trace, 25))
+				}
 				rec.Discard("proposal-failed:" + firstWords(err.Error(), 8))
 				return
 			}
 			out := sim.E.Execute(r, b, chain.PathProcess, nil)
 			if out.Err != nil || !out.Accepted {
+				if out.Err != nil && !preconditionLost(out.Err.Error()) {
+					ev.Violation(t, "round-processing-failed", "height %d: block execution failed in the roothash application: %v; trace=%v", b.Height, out.Err, tail(sim.Trace, 25))
+				}
 				rec.Discard("block-failed:" + firstWords(fmt.Sprint(out.Err), 8))
 				return
 			}
@@ -1036,4 +1047,9 @@ func tail(s []string, n int) []string {
 		return s[len(s)-n:]
 	}
 	return s
+}
+
+// preconditionLost: the documented precondition of the chain (enough stake-eligible validators remain) was lost.
+func preconditionLost(msg string) bool {
+	return strings.Contains(msg, "failed to elect any validators") || strings.Contains(msg, "insufficient validators") || strings.Contains(msg, "couldn't elect validators")
 }
